@@ -25,8 +25,10 @@ use crate::util::{Rng, Stats, guarded};
 /// `rewrite`: exclude-glob rewrite of all snapshots with `forget` (new trees, new snapshots, old snapshots removed);
 /// `config`: the scenario is built on `OneConfigBackend` (one config file whatever its id, like real backends), the command
 /// runs through `RepoHandle::open_oc`; `key` adds a key, `keyrm` removes a key added in the pre-state.
-pub const CMDS: [&str; 12] =
-    ["backup", "forget", "prune", "prune-instant", "merge", "repairsnap", "repairidx-readall", "key", "copy", "rewrite", "config", "keyrm"];
+/// `prune` / `prune-instant` / `prune-early`: `instant_delete` × `early_delete_index` = (0,0) / (1,0) / (0,1); (1,1) is the
+/// documented-unsafe combination the property excludes.
+pub const CMDS: [&str; 13] =
+    ["backup", "forget", "prune", "prune-instant", "prune-early", "merge", "repairsnap", "repairidx-readall", "key", "copy", "rewrite", "config", "keyrm"];
 
 pub struct Scn {
     pub h: RepoHandle,
@@ -48,21 +50,23 @@ pub fn cfg(seed: u64) -> ConfigOptions {
 /// number of backups in the pre-state (an evolving source): 3 or 4 (2 to 4 where the command does not need three)
 fn n_pre(cmd: &str, seed: u64) -> u64 {
     match cmd {
-        "prune" | "prune-instant" => 3 + (seed / 7) % 2,
+        "prune" | "prune-instant" | "prune-early" => 3 + (seed / 7) % 2,
         _ => 2 + (seed / 7) % 3,
     }
 }
 
 /// prune options by seed: plain / repack-all / fast-repack, max-unused 0 % or unlimited
-fn prune_opts_seed(instant: bool, seed: u64) -> PruneOptions {
+fn prune_opts_seed(instant: bool, early: bool, seed: u64) -> PruneOptions {
+    assert!(!(instant && early), "instant-delete + early-delete-index is excluded by the property");
     let i = if instant { '1' } else { '0' };
+    let e = if early { '1' } else { '0' };
     let (all, fast) = match (seed / 3) % 3 {
         0 => ('0', '0'),
         1 => ('1', '0'),
         _ => ('0', '1'),
     };
     let unused = if (seed / 11) % 3 == 0 { "u" } else { "p0" };
-    parse_opts(&format!("0,0,0,00{all}0{i}0{fast},u,{unused}")).unwrap().opts
+    parse_opts(&format!("0,0,0,00{all}0{i}{e}{fast},u,{unused}")).unwrap().opts
 }
 
 fn prune_opts(instant: bool) -> PruneOptions {
@@ -87,7 +91,7 @@ pub fn prestate(cmd: &str, seed: u64) -> Result<Scn, String> {
         live.push((snap, Some(src)));
     }
     match cmd {
-        "prune" | "prune-instant" => {
+        "prune" | "prune-instant" | "prune-early" => {
             let (s, _) = live.remove(0);
             h.open().map_err(e)?.delete_snapshots(&[s.id]).map_err(e)?;
             let r = h.open().map_err(e)?;
@@ -155,9 +159,9 @@ pub fn run_cmd(cmd: &str, seed: u64, h: &RepoHandle, scn: &Scn) -> RusticResult<
             let ids: Vec<_> = live.iter().take(2).map(|l| l.0.id).collect();
             h.open()?.delete_snapshots(&ids)
         }
-        "prune" | "prune-instant" => {
+        "prune" | "prune-instant" | "prune-early" => {
             let r = h.open()?;
-            let o = prune_opts_seed(cmd == "prune-instant", seed);
+            let o = prune_opts_seed(cmd == "prune-instant", cmd == "prune-early", seed);
             let plan = r.prune_plan(&o)?;
             r.prune(&o, plan)
         }
@@ -456,7 +460,9 @@ fn exec_mon(cmd: &str, seed: u64, thorough: bool) -> String {
     if let Err(e) = state_ok(cmd, &scn.h, &scn.live, &BTreeSet::new()) {
         return format!("oracle-fail:{cmd}:final-{e}");
     }
-    for k in sample_ks(n, thorough, seed) {
+    // prune: every operation is a crash / fault point also in quick (the windows between index and pack removals are short)
+    let all_k = thorough || (cmd.starts_with("prune") && n <= 48);
+    for k in sample_ks(n, all_k, seed) {
         for crash in [true, false] {
             if !crash && k >= n {
                 continue;
